@@ -47,6 +47,8 @@ type hxScramSrv struct {
 	ackedValid    bool
 	staleSig      []byte // valid signature of the most recent abandoned exchange
 	trace         []string
+	iter          int   // iteration count announced in the server-first of the running exchange (0: the fixed 4096)
+	iterSet       bool
 	script        []int // if set: the messages to send, in order (an honest or partly honest server); afterwards 535
 }
 
@@ -54,13 +56,44 @@ func (z *hxScramSrv) refSignature() []byte {
 	if !z.firstAccepted {
 		return nil
 	}
-	salted := pbkdf2.Key(z.password, z.salt, 4096, sha256.New().Size(), sha256.New)
+	var salted []byte
+	if z.iterSet {
+		// run with small iteration counts: the library's PBKDF2 is interpreted (not
+		// replaced by a UF) and the reference is the harness' own Hi() of RFC 5802;
+		// a non-positive count is read as one round
+		n := z.iter
+		if n < 1 {
+			n = 1
+		}
+		salted = hxHi(z.password, z.salt, n)
+	} else {
+		salted = pbkdf2.Key(z.password, z.salt, 4096, sha256.New().Size(), sha256.New)
+	}
 	mac := hmac.New(sha256.New, salted)
 	mac.Write([]byte("Server Key"))
 	serverKey := mac.Sum(nil)
 	mac2 := hmac.New(sha256.New, serverKey)
 	mac2.Write(z.authMessage)
 	return hxB64Enc(mac2.Sum(nil))
+}
+
+// hxHi is Hi(str, salt, i) of RFC 5802 section 2.2, written independently of
+// internal/pbkdf2.
+func hxHi(str, salt []byte, n int) []byte {
+	mac := hmac.New(sha256.New, str)
+	mac.Write(salt)
+	mac.Write([]byte{0, 0, 0, 1})
+	u := mac.Sum(nil)
+	out := append([]byte{}, u...)
+	for i := 1; i < n; i++ {
+		m := hmac.New(sha256.New, str)
+		m.Write(u)
+		u = m.Sum(nil)
+		for k := range out {
+			out[k] ^= u[k]
+		}
+	}
+	return out
 }
 
 func (z *hxScramSrv) emptyStateSignature() []byte {
@@ -170,7 +203,17 @@ func (z *hxScramSrv) handle(s *hxSrv, line string) {
 		}
 		z.combinedNonce = append(append([]byte{}, z.clientNonce...), suffix...)
 		sf := append(append([]byte("r="), z.clientNonce...), suffix...)
-		sf = append(append(append(sf, ",s="...), hxB64Enc(z.salt)...), ",i=4096"...)
+		its := "4096"
+		z.iterSet = false
+		if ni := svParam("iters", 0); ni > 0 {
+			// small and degenerate iteration counts (a server may announce any)
+			k := svPick("iteration-count", ni)
+			its = []string{"0", "1", "2", "-1", "3"}[k]
+			z.iter = []int{0, 1, 2, -1, 3}[k]
+			z.iterSet = true
+			svReach("iteration-count-" + its)
+		}
+		sf = append(append(append(sf, ",s="...), hxB64Enc(z.salt)...), (",i=" + its)...)
 		z.serverFirst = sf
 		payload = sf
 	case hxM_ForeignNonce:
